@@ -65,6 +65,21 @@ type c14World struct {
 	position string
 	custom   string
 	lastCode int
+	// wrapped: an earlier middleware maps http.ResponseWriter to a writer that embeds the request's
+	// flamego.ResponseWriter and has a Write of its own (as a compressing or capturing middleware does); seen
+	// is what went through that Write
+	wrapped bool
+	seen    []byte
+}
+
+type c14Wrap struct {
+	flamego.ResponseWriter
+	w *c14World
+}
+
+func (x *c14Wrap) Write(b []byte) (int, error) {
+	x.w.seen = append(x.w.seen, b...)
+	return x.ResponseWriter.Write(b)
 }
 
 func (w *c14World) err() error {
@@ -146,6 +161,12 @@ func (w *c14World) handler(shape string) flamego.Handler {
 // custom: "", "app" (mapped on the Flame), "request" (mapped by an earlier middleware)
 func c14Build(shape, position, custom string) *c14World {
 	w := &c14World{f: flamego.NewWithLogger(io.Discard), position: position, custom: custom}
+	if custom == "wrapped-writer" {
+		w.custom, w.wrapped = "", true
+		w.f.Use(func(c flamego.Context) {
+			c.MapTo(&c14Wrap{c.ResponseWriter(), w}, (*http.ResponseWriter)(nil))
+		})
+	}
 	customRH := flamego.ReturnHandler(func(c flamego.Context, vals []reflect.Value) {
 		w.customN++
 		for _, v := range vals {
@@ -397,7 +418,7 @@ func c14Eval(w *c14World, shape string, v c14Vals) (bad, kind string, defined bo
 
 func c14EvalM(w *c14World, shape string, v c14Vals, method string) (bad, kind string, defined bool) {
 	w.v = v
-	w.nextRan, w.customN, w.customV = false, 0, nil
+	w.nextRan, w.customN, w.customV, w.seen = false, 0, nil, nil
 	spy := &c01Spy{hdr: http.Header{}}
 	var pan interface{}
 	func() {
@@ -435,6 +456,9 @@ func c14EvalM(w *c14World, shape string, v c14Vals, method string) (bad, kind st
 		}
 		if spy.code != want.Status || spy.body.String() != want.Body {
 			return fmt.Sprintf("response status %d body %q, table says status %d body %q", spy.code, trunc(spy.body.String()), want.Status, trunc(want.Body)), "wrong-response", true
+		}
+		if w.wrapped && method != "HEAD" && string(w.seen) != want.Body {
+			return fmt.Sprintf("the body %q reached the client but only %q went through the Write of the http.ResponseWriter the request has mapped", trunc(want.Body), trunc(string(w.seen))), "body-bypasses-mapped-writer", true
 		}
 		return "", "", true
 	}
@@ -521,10 +545,10 @@ func c14Run(r *core.Run) {
 	if r.Thorough() {
 		r.SetBudget(10 * time.Minute)
 	}
-	r.Rule = "engine E: every supported return shape x every value (empty, nil, all 256 single bytes, 1 KiB, every status 100..999, nil / errors.New / struct / pointer-receiver errors, messages with percent signs and verbs, nil pointers) x position {first of two handlers, last before the action, application middleware} x {default table, custom ReturnHandler at application scope, at request scope, mapped late}; all values served in sequence on one instance, plus every two-request history (one value of each outcome class, then every value) on a fresh instance, and every cross-shape history (one value of each outcome class of every shape on one route, then one of each class of this shape on another route of the same instance, then the first again); oracle = the statement's table, 'wrote nothing' observed as 'the next handler ran'; non-trivial = value that is nil/empty/zero, an error, or a non-200 status"
-	r.Assumptions = []string{"a non-nil pointer to an empty value is not covered by the statement and is asserted neither way (counted)", "status codes outside 100..999 (what net/http accepts) are outside the quantifier"}
+	r.Rule = "engine E: every supported return shape x every value (empty, nil, all 256 single bytes, 1 KiB, every status 100..999, nil / errors.New / struct / pointer-receiver errors, messages with percent signs and verbs, nil pointers) x position {first of two handlers, last before the action, application middleware} x {default table, custom ReturnHandler at application scope, at request scope, mapped late, default table below a middleware that maps http.ResponseWriter to an embedding writer with a Write of its own}; all values served in sequence on one instance, plus every two-request history (one value of each outcome class, then every value) on a fresh instance, and every cross-shape history (one value of each outcome class of every shape on one route, then one of each class of this shape on another route of the same instance, then the first again); oracle = the statement's table, 'wrote nothing' observed as 'the next handler ran'; non-trivial = value that is nil/empty/zero, an error, or a non-200 status"
+	r.Assumptions = []string{"a non-nil pointer to an empty value is not covered by the statement and is asserted neither way (counted)", "status codes outside 100..999 (what net/http accepts) are outside the quantifier", "'the response' is what the http.ResponseWriter mapped for the request is given: where a middleware has mapped a writer of its own, a rendered body goes through that writer's Write (as on the pinned tree, for every shape alike)"}
 	positions := []string{"first-of-two", "last", "middleware"}
-	customs := []string{"", "app", "request", "request-late", "app-late"}
+	customs := []string{"", "app", "request", "request-late", "app-late", "wrapped-writer"}
 	type job struct{ shape, pos, custom string }
 	var jobs []job
 	for _, s := range c14Shapes {
@@ -574,6 +598,8 @@ func c14Run(r *core.Run) {
 					continue
 				}
 				switch {
+				case j.custom == "wrapped-writer":
+					l.Class("default-table-below-a-mapped-writer")
 				case j.custom != "":
 					l.Class("custom-return-handler")
 				case world.nextRan:
